@@ -322,7 +322,7 @@ def run_property(pid, tier, seed, t0, pin=False):
         jobs = []
         for u in runs:
             for i, fn in enumerate(u.gen.fns):
-                if fn["has_contract"] and tag_matches(fn["tags"], pid):
+                if fn["has_contract"] and fn.get("has_body", True) and tag_matches(fn["tags"], pid):
                     jobs.append((u.unit, u.model, fn["key"], i))
         with ThreadPoolExecutor(max_workers=NCPU) as ex:
             vac = list(ex.map(lambda j: vacuity_one(*j), jobs))
